@@ -1,1 +1,147 @@
-(* Uper/Ty.v -- stub, to be filled *)
+(* L2: the type universe (descriptor constants, not ASN.1 syntax) and the value universe
+   shared by the UPER writer/reader model. *)
+From A1 Require Export Per.Prim.
+Local Open Scope N_scope.
+
+Inductive ikind := U8 | I8 | U16 | I16 | U32 | I32 | U64 | I64.
+Inductive cset := Utf8 | Ia5 | Numeric | Printable | Visible.
+
+Inductive val :=
+| VBool (b : bool)
+| VNull
+| VInt (z : Z)
+| VStr (chars : list N)                 (* Unicode scalar values *)
+| VOctets (bytes : list N)
+| VBits (bytes : list N) (bit_len : N)  (* BitVec(bytes, bit_len) *)
+| VList (vs : list val)
+| VSeq (fields : list (option val))     (* one entry per component; None = absent OPTIONAL *)
+| VChoice (index : N) (v : val)
+| VEnum (index : N).
+
+Inductive fkind := FReq | FOpt | FDef (d : val).
+
+(* what the generated `impl ...::Constraint` blocks say *)
+Inductive ty :=
+| TBool
+| TNull
+| TInt (k : ikind) (lo hi : option Z) (ext : bool)
+| TStr (c : cset) (lo hi : option N) (ext : bool)
+| TOctets (lo hi : option N) (ext : bool)
+| TBitStr (lo hi : option N) (ext : bool)
+| TListOf (e : ty) (lo hi : option N) (ext : bool)
+| TSeq (fs : list (fkind * ty)) (std_optional_fields field_count : N) (extended_after : option N)
+| TChoice (alts : list ty) (std_variant_count : N) (ext : bool)
+| TEnum (variant_count std_variant_count : N) (ext : bool).
+
+(* linear-time list reversal (List.rev is quadratic) *)
+Definition frev {A} (l : list A) : list A := rev_append l [].
+
+(* Number::to_i64 / from_i64 (`as` casts) *)
+Definition ik_bits (k : ikind) : N :=
+  match k with U8 | I8 => 8 | U16 | I16 => 16 | U32 | I32 => 32 | U64 | I64 => 64 end.
+Definition ik_signed (k : ikind) : bool :=
+  match k with I8 | I16 | I32 | I64 => true | _ => false end.
+Definition ik_fitsb (k : ikind) (v : Z) : bool :=
+  if ik_signed k then ((- 2 ^ (Z.of_N (ik_bits k) - 1) <=? v) && (v <? 2 ^ (Z.of_N (ik_bits k) - 1)))%Z
+  else ((0 <=? v) && (v <? 2 ^ Z.of_N (ik_bits k)))%Z.
+Definition to_i64 (v : Z) : Z := i64_of_u64 (u64_of_i64 v).
+Definition from_i64 (k : ikind) (v : Z) : Z :=
+  let m := (2 ^ Z.of_N (ik_bits k))%Z in
+  let t := (v mod m)%Z in
+  if ik_signed k then (if (t <? m / 2)%Z then t else t - m)%Z else t.
+
+(* Charset::is_valid *)
+Definition cs_valid (c : cset) (ch : N) : bool :=
+  match c with
+  | Utf8 => true
+  | Numeric => (ch =? 32) || ((48 <=? ch) && (ch <=? 57))
+  | Printable => (ch =? 32) || ((39 <=? ch) && (ch <=? 41)) || ((43 <=? ch) && (ch <=? 58)) || (ch =? 61) || (ch =? 63)
+                 || ((65 <=? ch) && (ch <=? 90)) || ((97 <=? ch) && (ch <=? 122))
+  | Ia5 => ch <=? 127
+  | Visible => (32 <=? ch) && (ch <=? 126)
+  end.
+
+(* UTF-8 (str::as_bytes / String::from_utf8) *)
+Definition utf8_char (c : N) : list N :=
+  if c <? 128 then [c]
+  else if c <? 2048 then [192 + c / 64; 128 + c mod 64]
+  else if c <? 65536 then [224 + c / 4096; 128 + (c / 64) mod 64; 128 + c mod 64]
+  else [240 + c / 262144; 128 + (c / 4096) mod 64; 128 + (c / 64) mod 64; 128 + c mod 64].
+Definition utf8_encode (cs : list N) : list N := flat_map utf8_char cs.
+
+Definition is_cont (b : N) : bool := (128 <=? b) && (b <? 192).
+Fixpoint utf8_decode_fuel (fuel : nat) (bs : list N) : option (list N) :=
+  match fuel with
+  | O => None
+  | S f =>
+      match bs with
+      | [] => Some []
+      | b0 :: r =>
+          if b0 <? 128 then option_map (cons b0) (utf8_decode_fuel f r)
+          else if (194 <=? b0) && (b0 <? 224) then
+            match r with
+            | b1 :: r' => if is_cont b1 then option_map (cons ((b0 - 192) * 64 + (b1 - 128))) (utf8_decode_fuel f r') else None
+            | _ => None
+            end
+          else if (224 <=? b0) && (b0 <? 240) then
+            match r with
+            | b1 :: b2 :: r' =>
+                let c := (b0 - 224) * 4096 + (b1 - 128) * 64 + (b2 - 128) in
+                if is_cont b1 && is_cont b2 && (2048 <=? c) && negb ((55296 <=? c) && (c <? 57344))
+                then option_map (cons c) (utf8_decode_fuel f r') else None
+            | _ => None
+            end
+          else if (240 <=? b0) && (b0 <? 245) then
+            match r with
+            | b1 :: b2 :: b3 :: r' =>
+                let c := (b0 - 240) * 262144 + (b1 - 128) * 4096 + (b2 - 128) * 64 + (b3 - 128) in
+                if is_cont b1 && is_cont b2 && is_cont b3 && (65536 <=? c) && (c <? 1114112)
+                then option_map (cons c) (utf8_decode_fuel f r') else None
+            | _ => None
+            end
+          else None
+      end
+  end.
+Definition utf8_decode (bs : list N) : option (list N) := utf8_decode_fuel (S (length bs)) bs.
+
+(* value equality (PartialEq of the generated types) *)
+Fixpoint list_eqb {A} (eq : A -> A -> bool) (a b : list A) : bool :=
+  match a, b with
+  | [], [] => true
+  | x :: a', y :: b' => eq x y && list_eqb eq a' b'
+  | _, _ => false
+  end.
+Definition opt_eqb {A} (eq : A -> A -> bool) (a b : option A) : bool :=
+  match a, b with Some x, Some y => eq x y | None, None => true | _, _ => false end.
+
+Fixpoint val_eqb (a b : val) {struct a} : bool :=
+  match a, b with
+  | VBool x, VBool y => Bool.eqb x y
+  | VNull, VNull => true
+  | VInt x, VInt y => (x =? y)%Z
+  | VStr x, VStr y => list_eqb N.eqb x y
+  | VOctets x, VOctets y => list_eqb N.eqb x y
+  | VBits x l, VBits y k => list_eqb N.eqb x y && (l =? k)
+  | VList xs, VList ys =>
+      (fix go (xs ys : list val) : bool :=
+         match xs, ys with
+         | [], [] => true
+         | x :: xs', y :: ys' => val_eqb x y && go xs' ys'
+         | _, _ => false
+         end) xs ys
+  | VSeq xs, VSeq ys =>
+      (fix go (xs ys : list (option val)) : bool :=
+         match xs, ys with
+         | [], [] => true
+         | x :: xs', y :: ys' =>
+             match x, y with
+             | Some x, Some y => val_eqb x y
+             | None, None => true
+             | _, _ => false
+             end && go xs' ys'
+         | _, _ => false
+         end) xs ys
+  | VChoice i x, VChoice j y => (i =? j) && val_eqb x y
+  | VEnum i, VEnum j => i =? j
+  | _, _ => false
+  end.
